@@ -163,8 +163,8 @@ class Gen:
         w('  for (k = 0; k < 4; k++) { if (p > 1) { put(0x80); p--; } else { put(0x00); return; } } }')
         w('static void put_sleb_bytes(const unsigned char* bs, int n, int neg, U8 p) { int k; for (k = 0; k < 10; k++) if (k < n) put((k == n - 1 && p > 0) ? (bs[k] | 0x80) : bs[k]);')
         w('  for (k = 0; k < 9; k++) { if (p > 1) { put(neg ? 0xFF : 0x80); p--; } else if (p == 1) { put(neg ? 0x7F : 0x00); return; } else return; } }')
-        w('#ifndef CNL\n#define CNL 2\n#endif\n#ifndef CCL\n#define CCL 3\n#endif\n#ifndef CPAD\n#define CPAD 0\n#endif')
-        w('static void put_custom(void) { U32 nl = CNL, cl = CCL, k; put(0); put_uleb(1 + nl + cl, CPAD); put((U8)nl);')
+        w('#ifndef CNL\n#define CNL 2\n#endif\n#ifndef CCL\n#define CCL 3\n#endif\n#ifndef CPAD\n#define CPAD 0\n#endif\n#ifndef CNPAD\n#define CNPAD 0\n#endif')
+        w('static void put_custom(void) { U32 nl = CNL, cl = CCL, k; put(0); put_uleb(1 + CNPAD + nl + cl, CPAD); put_uleb(nl, CNPAD);')
         w('  for (k = 0; k < 3; k++) if (k < nl) put((U8)(0x78 + k)); for (k = 0; k < 3; k++) if (k < cl) put((U8)(0x0B - k)); }   /* concrete bytes (symbolic content does not finish in 100 s); content contains an end opcode and small numbers on purpose */')
         maxpads = ', '.join(str(mp) for (_, mp) in self.fields) or '0'
         w('static const U8 maxpad[NF > 0 ? NF : 1] = { %s };' % maxpads)
